@@ -166,6 +166,18 @@ Theorem C12_bigint_cells_refine_values :
 Proof. exact bigint_cells_refine_values. Qed.
 Print Assumptions C12_bigint_cells_refine_values.
 
+(* PowerInteger / Dec.Power: the square-and-multiply loops, which call d.MulMut(d) on the receiver itself, compute the
+   value-level loop power_loop_v (a range assertion after every rounded multiplication); PowerInteger = PowerIntegerMut *)
+Theorem C12_power_cells_refine_values : forall k h d, (d < next h)%nat ->
+  spec (PowerIntegerMut d k) h (fun h' r => bd_power_v (rd h d) k = Some (rd h' r) /\ (k <> 0 -> r = d))
+                               (fun e h' => bd_power_v (rd h d) k = None) /\
+  spec (PowerInteger d k) h (fun h' r => bd_power_v (rd h d) k = Some (rd h' r)) (fun e h' => bd_power_v (rd h d) k = None) /\
+  spec (D_PowerMut d k) h (fun h' r => d_power_v (rd h d) k = Some (rd h' r) /\ r = d) (fun e h' => d_power_v (rd h d) k = None) /\
+  spec (D_Power d k) h (fun h' r => d_power_v (rd h d) k = Some (rd h' r)) (fun e h' => d_power_v (rd h d) k = None) /\
+  same_outcome (PowerIntegerMut d k h) (PowerInteger d k h) /\ same_outcome (D_PowerMut d k h) (D_Power d k h).
+Proof. exact power_cells_refine_values. Qed.
+Print Assumptions C12_power_cells_refine_values.
+
 (* mutating and non-mutating forms return the same outcome (value or panic kind) on distinct cells *)
 Theorem C12_bigdec_mut_forms_agree : forall h d d2, valid2 h d d2 ->
   obs_of (AddMut d d2 h) = obs_of (Add d d2 h) /\
@@ -320,7 +332,9 @@ Example C12_cells_nonvacuous :
   obs_of (QuoMut 0 1 (init_heap (3 * P36) (-7 * P36))) = (0, -428571428571428571428571428571428571) /\
   obs_of (MulMut 0 1 (init_heap (2 ^ 1100) (2 ^ 200))) = (1, 0) /\
   obs_of (Quo 0 1 (init_heap 5 0)) = (2, 0) /\
-  nonmut_op OBD_QuoRoundUp = true /\ mut_op OBD_QuoRoundUpMut = true.
+  nonmut_op OBD_QuoRoundUp = true /\ mut_op OBD_QuoRoundUpMut = true /\
+  bd_power_v (2 * P36) 10 = Some (1024 * P36) /\ d_power_v (15 * 10 ^ 17) 3 = Some (3375 * 10 ^ 15) /\
+  bd_power_v (2 ^ 600) 5 = None.
 Proof. repeat split; try (vm_compute; reflexivity); cbn; try lia; discriminate. Qed.
 Example C12_codec_nonvacuous :
   bitlen (- (2 ^ 1024 - 1)) <= from_str_bound /\
